@@ -5,35 +5,8 @@
 // validate.  The last line of stdout is a JSON report (see internal/rep).
 package main
 
-import (
-	"fmt"
-	"os"
-	"sort"
-)
+import "verifharness/internal/rep"
 
-type subcmd func(args []string) error
+func register(name string, f rep.Sub) { rep.Register(name, f) }
 
-var subcmds = map[string]subcmd{}
-
-func register(name string, f subcmd) { subcmds[name] = f }
-
-func main() {
-	if len(os.Args) < 2 {
-		var names []string
-		for n := range subcmds {
-			names = append(names, n)
-		}
-		sort.Strings(names)
-		fmt.Fprintln(os.Stderr, "usage: vh <subcommand> [args]; subcommands:", names)
-		os.Exit(2)
-	}
-	f, ok := subcmds[os.Args[1]]
-	if !ok {
-		fmt.Fprintln(os.Stderr, "unknown subcommand", os.Args[1])
-		os.Exit(2)
-	}
-	if err := f(os.Args[2:]); err != nil {
-		fmt.Fprintln(os.Stderr, "vh:", err)
-		os.Exit(2)
-	}
-}
+func main() { rep.Main() }
